@@ -33,7 +33,7 @@
 #define BE_ANYVER 0
 #elif BE == 7        /* isa_l_rs_cauchy */
 #define BE_WBYTES 1
-#define BE_VERSION 0x020d00u
+#define BE_VERSION 0x020e01u   /* 2.14.1 */
 #define BE_ANYVER 0
 #elif BE == 6        /* liberasurecode_rs_vand */
 #define BE_WBYTES 2
